@@ -1,6 +1,6 @@
 """C14 — the default engine runs only SIMD code the CPU reports, and picks the best."""
 import re
-from . import core
+from . import core, summ
 from .core import callgraph, op_place
 
 EXPLANATION = (
@@ -238,6 +238,11 @@ def run(ctx):
     r_ctor = ctx.rule('C14.e-default-engine-ctor', 'DefaultEngine values are built only in DefaultEngine::new; ReedSolomon{En,De}coder::new use DefaultEngine::new()')
     ctx.rule('C14.f-eval-poly-dispatch', 'polynomial evaluation is reached only through Engine::eval_poly (so that DefaultEngine can pick the best compiled version): utils::eval_poly is called only by Engine::eval_poly bodies and their private target_feature wrappers; decoders call E::eval_poly')
     r_fwd = ctx.rule('C14.e-forwarding', 'DefaultEngine::{fft,ifft,mul} dispatch to the boxed engine chosen by new()')
+    ctx.rule('C14.g-engines-identical', 'whichever engine a feature subset selects computes the same thing: schedule functions and SIMD kernels of the selectable engines are siblings (clauses shared with C03.a / C03.e)')
+    from . import c03
+    ctx.guard('C14.analysable', ctx.shared, {'C03.e-kernel-siblings': 'C14.g-engines-identical'}, c03.kernel_siblings, ctx, {c: ctx.facts(c) for c in ('x86_64', 'aarch64')})
+    for c in ('x86_64', 'aarch64'):
+        ctx.guard('C14.analysable', ctx.shared, {'C03.a-schedule-siblings': 'C14.g-engines-identical'}, c03.schedules, ctx, ctx.facts(c), c)
     for cfg in cfgs:
         facts = ctx.facts(cfg)
         ctx.guard('C14.analysable', check_cfg, ctx, facts, cfg)
@@ -510,7 +515,7 @@ def check_cfg(ctx, facts, cfg):
             continue
         found = False
         for b, t in f.body.calls():
-            k = t['callee'].get('key') or ''
+            k = summ.summaries(facts).through_forwarders(t['callee'].get('key') or '') or ''
             if re.search(r'DefaultRate(En|De)coder<.*DefaultEngine> as rate::Rate(En|De)coder<.*>>::new$', k):
                 eng = f.body.canon_op(t['args'][3])
                 if eng[0] == 'call' and eng[1] == new_p:
